@@ -88,6 +88,9 @@ var _ = pr.AutoF
 //@ func iface (boxes.*).Box
 //@   pure
 //@   ensures result != nil
+//@ func iface (boxes.*).BlockLevel
+//@   pure
+//@   ensures result != nil
 
 // ---------------------------------------------------------------------------
 // C09 / C13: the table grid. Each cell is given the slots [GridX, GridX+Colspan) of its row (and
